@@ -32,7 +32,7 @@ PInit ==
                 THEN [Idle EXCEPT !.kind = "submit-jobs", !.pc = "poll", !.pid = 1,
                                   !.lcfg = InitCfg("login"), !.wcfg = InitCfg("login"), !.ljs = InitJs(S), !.lbidx = 1]
                 ELSE Idle]
-  /\ npid = 1 /\ nuser = 0 /\ ended = FALSE /\ nfault = 0 /\ ncancel = 0 /\ nresub = 0
+  /\ npid = 1 /\ nuser = 0 /\ ended = FALSE /\ nfault = 0 /\ ncancel = 0 /\ nresub = 0 /\ stuck = {}
   /\ m = MonInit(S)
   /\ path = <<>> /\ elog = <<>>
 
@@ -50,7 +50,7 @@ ProcStep(s) == SubStep(s) \/ NodeStep(s)
 \* the recorded run is over (complete, or the driver stopped issuing recovery rounds)
 PEnd == /\ Quiescent /\ ~ended /\ ended' = TRUE
         /\ Feed(<<"End", 0, 0>>, <<[e |-> "end", full |-> TRUE]>>)
-        /\ UNCHANGED <<S, cfg, js, marker, bfile, hs, nodeFile, processed, jp, procs, npid, nuser, nfault, ncancel, nresub>>
+        /\ UNCHANGED <<S, cfg, js, marker, bfile, hs, nodeFile, processed, jp, procs, npid, nuser, nfault, ncancel, nresub, stuck>>
 PNext ==
   /\ l < Len(Paths[tid].path)
   /\ tid' = tid
